@@ -208,6 +208,80 @@ impl crate::explore::CaseSpace for AppIinProduct {
     }
 }
 
+// ---------------------------------------------------------------------------------------
+// clearing the restart indication with any range that covers it
+// ---------------------------------------------------------------------------------------
+
+/// WRITE g80v1 with every range [a, b], 0 <= a <= b <= 15, all
+/// written bits 0 or all 1: the restart indication is cleared exactly when index 7 is in the
+/// range and written as 0, whatever other indices the range names
+pub struct RestartWrites;
+
+impl crate::explore::CaseSpace for RestartWrites {
+    fn name(&self) -> String {
+        "restart-bit-writes".into()
+    }
+    fn seeded(&self) -> bool {
+        true
+    }
+    fn total(&self) -> usize {
+        16 * 16 * 2
+    }
+    fn run(&self, index: usize, transcript: bool) -> RunResult {
+        use crate::explore::Violation;
+        use crate::osim::{OCfg, OSim};
+        use crate::wire::app::{self, fc};
+        let mut res = RunResult::default();
+        let a = (index % 16) as u8;
+        let b = ((index / 16) % 16) as u8;
+        let ones = (index / 256) % 2 == 1;
+        res.obs = index as u64 + 808080;
+        if a > b {
+            return res;
+        }
+        let cfg = OCfg { event_buf: [5; 8], ..Default::default() };
+        let mut sim = OSim::new(&cfg, 1);
+        sim.take_out();
+        let n = (b - a + 1) as usize;
+        // (the library supports the 8-bit start/stop form only; it rejects the 16-bit form with an
+        // error indication, which is C12's subject)
+        let mut objs = vec![80, 1, 0x00, a, b];
+        objs.extend(std::iter::repeat(if ones { 0xFFu8 } else { 0 }).take((n + 7) / 8));
+        sim.send(&app::request(1, fc::WRITE, &objs));
+        let w: Option<app::Resp> = sim.take_out().iter().filter_map(|t| t.frag()).filter_map(app::Resp::parse).find(|r| !r.uns() && r.seq() == 1);
+        sim.send(&app::request(2, fc::DELAY_MEASURE, &[]));
+        let r: Option<app::Resp> = sim.take_out().iter().filter_map(|t| t.frag()).filter_map(app::Resp::parse).find(|r| !r.uns() && r.seq() == 2);
+        res.transitions += 2;
+        if let Some(f) = sim.failure() {
+            res.violation = Some(Violation::new("C13.X0", f.clone(), f));
+            return res;
+        }
+        let key = format!("write-g80v1-[{a},{b}]-{}", if ones { "ones" } else { "zeros" });
+        let (Some(w), Some(r)) = (w, r) else {
+            res.violation = Some(Violation::new("C13.W0", key, "request not answered".to_string()));
+            return res;
+        };
+        if transcript {
+            res.transcript.push(format!("{key}: WRITE -> {}, then -> {}", app::hex(&w.raw[..4]), app::hex(&r.raw[..4])));
+        }
+        let cleared = a <= 7 && 7 <= b && !ones;
+        for (what, resp) in [("the WRITE's own response", &w), ("the next response", &r)] {
+            let restart = resp.iin1 & 0x80 != 0;
+            if restart == cleared {
+                res.violation = Some(Violation::new(
+                    "C13.W1",
+                    key,
+                    format!("{what} ({}) shows the restart indication {}; index 7 {} written as 0", app::hex(&resp.raw[..4]), if restart { "set" } else { "clear" }, if cleared { "was" } else { "was not" }),
+                ));
+                return res;
+            }
+        }
+        res.nontrivial = true;
+        res.model_states.push(cleared as u64);
+        res
+    }
+}
+
 pub fn replay(scenario: &str, path: &[usize]) -> Option<RunResult> {
     use crate::explore::CaseSpace;
     if scenario == super::c03x::OverflowPerType.name() {
@@ -215,6 +289,9 @@ pub fn replay(scenario: &str, path: &[usize]) -> Option<RunResult> {
     }
     if scenario == (super::c03x::Capacities { id: "C13" }).name() {
         return Some(super::c03x::Capacities { id: "C13" }.run(path[0], true));
+    }
+    if scenario == RestartWrites.name() {
+        return Some(RestartWrites.run(path[0], true));
     }
     if scenario == AppIinProduct.name() {
         return Some(AppIinProduct.run(path[0], true));
@@ -230,9 +307,10 @@ pub fn check(tier: &str) -> i32 {
     c.cases(&super::c03x::OverflowPerType);
     c.cases(&super::c03x::Capacities { id: "C13" });
     c.cases(&AppIinProduct);
+    c.cases(&RestartWrites);
     c.finish(
         "model_checking",
-        "(application indications) all 16 combinations of the application's need-time / local-control / device-trouble / config-corrupt answers x 4 kinds of response (null unsolicited, non-READ answer, READ answer, data unsolicited): each bit mirrors the answer; (limits differ per type) 16 assignments of the limits 1..8 to the 8 types and 8 with one type switched off, every type filled exactly to its limit: nothing is displaced, everything is delivered, and after the confirmation no class bit and no overflow bit remains; (overflow per type) every ordered pair of the 8 event types (one overflowed, the other holding exactly its limit, one less, or configured to keep no events at all): the overflow bit is reported with the discard, stays after the confirmation exactly if a type is still at capacity, and clears once that type is confirmed too; (histories) every event history over the listed alphabet (C03's alphabet plus broadcasts of the three confirm modes, WRITE of the restart bit to 0 and 1, reconnect, flips of the application's need-time / config-corrupt answers) up to the listed depth, executed on the real OutstationTask; for every first transmission of a response the oracle recomputes IIN1 and IIN2.3/2.5 from the event ledger and the indication model and compares all ten bits; non-trivial = at least two responses were checked; distinct = distinct observation trace",
+        "(restart writes) WRITE g80v1 over every range [a, b] within 0..=15, all bits 0 or all 1: the restart indication clears exactly when index 7 is covered and written 0; (application indications) all 16 combinations of the application's need-time / local-control / device-trouble / config-corrupt answers x 4 kinds of response (null unsolicited, non-READ answer, READ answer, data unsolicited): each bit mirrors the answer; (limits differ per type) 16 assignments of the limits 1..8 to the 8 types and 8 with one type switched off, every type filled exactly to its limit: nothing is displaced, everything is delivered, and after the confirmation no class bit and no overflow bit remains; (overflow per type) every ordered pair of the 8 event types (one overflowed, the other holding exactly its limit, one less, or configured to keep no events at all): the overflow bit is reported with the discard, stays after the confirmation exactly if a type is still at capacity, and clears once that type is confirmed too; (histories) every event history over the listed alphabet (C03's alphabet plus broadcasts of the three confirm modes, WRITE of the restart bit to 0 and 1, reconnect, flips of the application's need-time / config-corrupt answers) up to the listed depth, executed on the real OutstationTask; for every first transmission of a response the oracle recomputes IIN1 and IIN2.3/2.5 from the event ledger and the indication model and compares all ten bits; non-trivial = at least two responses were checked; distinct = distinct observation trace",
         &[
             "byte-identical re-sends of the response awaiting confirmation carry the bits of the moment they were built and are exempt",
             "updates are placed at quiescent points (H6 lock-point placements are not built)",
